@@ -481,7 +481,8 @@ theorem PlainRun.pos_le {l l' : Lexer} {lc lc' : Int} (h : PlainRun l lc l' lc')
 theorem lexText_cut_open {l l' l1 : Lexer} {lc lc' : Int} (hrun : PlainRun l lc l' lc')
     (hn : l'.next = some (123, l1)) (h0 : 0 ≤ l.start) (h1 : l.start ≤ l.pos) :
     ∃ lf, lexTextLoop l lc = some (some .leftDelim, lf) ∧
-      lf.items.toList = l.items.toList ++ textItems l.input l.start l'.pos ∧ lf.pos = l'.pos ∧ lf.start = l'.pos := by
+      lf.items.toList = l.items.toList ++ textItems l.input l.start l'.pos ∧ lf.pos = l'.pos ∧ lf.start = l'.pos ∧
+      lf.input = l.input := by
   obtain ⟨he, hi, hs, hin, _⟩ := lexTextLoop_run hrun
   have hple := (hrun.pos_le (by omega)).1
   have hf := (next_facts hn (by omega)).2.2
@@ -489,10 +490,10 @@ theorem lexText_cut_open {l l' l1 : Lexer} {lc lc' : Int} (hrun : PlainRun l lc 
   rw [he, lexTextLoop_some hn]
   simp only [show (123 : Int) ≠ 47 by decide, if_false, if_true]
   rw [next_backup hn]
-  obtain ⟨lf, hm, hit, hp, _, hst, heq⟩ := maybeEmitText_items (l := { l' with width := l1.width }) (k := 0)
+  obtain ⟨lf, hm, hit, hp, hinf, hst, heq⟩ := maybeEmitText_items (l := { l' with width := l1.width }) (k := 0)
     (by show 0 ≤ l'.start; omega) (by show l'.pos - 0 ≤ (l'.input.size : Int); simp only [Lexer.len] at hf; omega)
   rw [hm]
-  refine ⟨lf, rfl, ?_, hp, ?_⟩
+  refine ⟨lf, rfl, ?_, hp, ?_, hinf.trans hin⟩
   · rw [hit]; show l'.items.toList ++ textItems l'.input l'.start (l'.pos - 0) = _
     rw [hi, hin, hs, Int.sub_zero]
   · by_cases hlt : l'.start < l'.pos
@@ -552,7 +553,7 @@ theorem lexText_cut_block {l l' l1 l2 : Lexer} {lc lc' : Int} (hrun : PlainRun l
     (hn : l'.next = some (47, l1)) (hn2 : l1.next = some (42, l2)) (h0 : 0 ≤ l.start) (h1 : l.start ≤ l.pos) :
     ∃ l3 : Lexer, l3.items.toList = l.items.toList ++ textItems l.input l.start l'.pos ∧ l3.pos = l2.pos ∧
       l3.input = l.input ∧
-      lexTextLoop l lc = afterSlashStar l3 := by
+      lexTextLoop l lc = afterSlashStar l3 ∧ l3.start = l'.pos := by
   obtain ⟨he, hi, hs, hin, _⟩ := lexTextLoop_run hrun
   have hple := (hrun.pos_le (by omega)).1
   have hf := (next_facts hn (by omega)).2.2
@@ -564,12 +565,15 @@ theorem lexText_cut_block {l l' l1 l2 : Lexer} {lc lc' : Int} (hrun : PlainRun l
   have hl1 := (next_facts hn (by omega)).1.1
   have hl2 := (next_facts hn2 (by omega)).1.1
   simp only [Lexer.len] at hf hf2 hl1 hl2
-  obtain ⟨l3, hm, hit, hp, hinm, _, _⟩ := maybeEmitText_items (l := l2) (k := 2) (by omega) (by simp only [Lexer.len]; omega)
-  refine ⟨l3, ?_, hp, by rw [hinm, hin2, hin1, hin], ?_⟩
+  obtain ⟨l3, hm, hit, hp, hinm, hst, heq⟩ := maybeEmitText_items (l := l2) (k := 2) (by omega) (by simp only [Lexer.len]; omega)
+  refine ⟨l3, ?_, hp, by rw [hinm, hin2, hin1, hin], ?_, ?_⟩
   · rw [hit, hi2, hi1, hi, hin2, hin1, hin, hs2, hs1, hs]
     congr 2; omega
   · rw [he, lexTextLoop_some hn]
     simp only [if_true, hn2, show (42 : Int) ≠ 47 by decide, if_false, hm]
+  · by_cases hlt : l2.start < l2.pos - 2
+    · rw [hst hlt]; omega
+    · rw [heq (by omega)]; omega
 
 /-- CUT at a line comment: `//` at a `LineStart`.  The text before it — without the
     whitespace character that precedes the `//`, if any was read in this run — is sent, then
@@ -681,7 +685,7 @@ theorem lexText_plain_then_open (pre post : Bytes)
     have : l'.len = (initLexer (pre ++ 123 :: post)).len := by simp only [Lexer.len, hin]
     rw [this, hlen, hp']; omega) (by omega)
   rw [hb] at hn
-  obtain ⟨lf, h1, h2, h3, h4⟩ := lexText_cut_open hr hn (by simp [initLexer]) (by simp [initLexer])
+  obtain ⟨lf, h1, h2, h3, h4, _⟩ := lexText_cut_open hr hn (by simp [initLexer]) (by simp [initLexer])
   refine ⟨lf, h1, ?_, by rw [h3, hp'], by rw [h4, hp']⟩
   rw [h2, hp']
   simp [initLexer]
